@@ -522,6 +522,28 @@ def totality_cases(ctx):
         for e in G.nesting_cases(d):
             for m in (['expr', rng.choice(['unary', 'boxed', 'context', 'name', 'textual', 'textuals'])] if ctx.quick else G.MODES):
                 add('nesting-%d' % d, e, '{a: 1, f: function(x) x}' if d <= 50 else '{f: function(x) x}', m)
+    # constructs nested in the positions that are evaluated FIRST (the condition of an if, the left operand of and / or, the tested value of between and in,
+    # the list of a filter, the domain of a for): once per level, whatever the condition gives (seeded change C05_k: a condition that is not true was
+    # evaluated a second time - 2^depth evaluations)
+    def nest(d, leaf, wrap):
+        e = leaf
+        for _ in range(d):
+            e = wrap % e
+        return e
+    for d in (30, 60, 200):
+        for leaf, wrap in (('false', 'if (%s) then false else false'), ('null', 'if (%s) then 1 else null'), ('1', 'if (%s) then false else false'), ('true', 'if (%s) then true else true'),
+                           ('false', '(%s) or false'), ('true', '(%s) and true'), ('null', '(%s) and null'), ('1', '(%s) between 0 and 2'), ('1', 'if (%s) in [0..2] then 1 else 1'),
+                           ('[1]', '(%s)[true]'), ('[1]', 'for x in (%s) return x'), ('false', 'if (%s) = null then false else false')):
+            add('nesting-first-position', nest(d, leaf, wrap))
+    # listed finding filter-index-nesting: a filter evaluates its second operand once per item (as a predicate) AND once more (as a possible index), so filters
+    # nested in the INDEX position cost (items + 1)^depth evaluations; shallow nestings answer at once, the witness at depth 40 runs into the time limit
+    def nest_ix(d):
+        e = '1'
+        for _ in range(d):
+            e = '[1, 2][%s]' % e
+        return e
+    for d in (2, 6, 10, 40):
+        add('filter-index-nest', nest_ix(d))
     # listed finding dtd-sum-beyond-i128: the witness (17 doublings of the largest literal leave the i128 of nanoseconds) and its neighbours that stay inside
     for n in (15, 16, 17, 18, 20):
         add('dtd-sum', 'for i in 1..%d return if i = 1 then duration("P18446744073709551615D") else partial[-1] + partial[-1]' % n)
@@ -572,6 +594,8 @@ def run_totality(ctx):
                 # unchecked i128 addition; any other panic, also one in the same file, is a violation
                 if (k == 'panic' and not rel and 'attempt to add with overflow' in str(ri.get('panic')) and str(ri.get('at', '')).rsplit(':', 1)[0].endswith('feel/src/temporal/dt_duration.rs')
                         and 'duration(' in c['e'] and '+' in c['e'] and ctx.known('dtd-sum-beyond-i128', case)):
+                    continue
+                if k == 'timeout' and c['tag'] == 'filter-index-nest' and c['e'].count('[1, 2][') >= 14 and ctx.known('filter-index-nesting', case):
                     continue
                 ctx.violation('%s in the %s build (%s, mode %s): %s  %s' % (k, case['build'], c['tag'], c['mode'], c['e'][:200], json.dumps(ri)[:200]), case, impl=ri)
         done += len(batch)
